@@ -36,6 +36,11 @@ def cases(draw, tier):
     cfg["A0"] = {"class": "VScriptedAgent", "numAgents": draw(st.integers(2, 5)), "markets": list(names), "assetVolume": 10, "cashAmount": 1000,
                  "scripts": draw(st.lists(program_strategy(spec, max_actions=6, decline_weight=0), min_size=1, max_size=4))}
     cfg["B0"] = crossing_pair(names, ttl=2)
+    if draw(st.integers(0, 2)) == 0:
+        # a high-frequency agent (default submit rate 1.0, default cap 1): it goes on placing and cancelling during a halt
+        cfg["H0"] = {"class": "VScriptedHFT", "numAgents": 1, "markets": list(names), "assetVolume": 10, "cashAmount": 1000,
+                     "scripts": [draw(program_strategy(spec, max_actions=4, decline_weight=0))]}
+        cfg["simulation"]["agents"].append("H0")
     both = draw(st.integers(0, 3)) == 0  # one rule over both markets: one halt slot and one halt counter shared by its targets
     cfg["HALT"] = {"class": "TradingHaltRule", "targetMarkets": list(names) if both else [target], "triggerChangeRate": rate, "haltingTimeLength": L}
     if draw(st.integers(0, 5)) == 0:
@@ -152,6 +157,15 @@ def check_case(case):
     returned = len(A.returned_orders)
     if len(A.order_logs) != returned:
         raise Violation("C16.orders_accepted_during_halt", f"{returned} orders submitted, {len(A.order_logs)} accepted")
+    # "orders can still be placed and cancelled during the halt" holds for high-frequency agents too: at the default submit rate
+    # (1.0) they are consulted after every batch of a normal agent, halt or no halt
+    if "H0" in cfg:
+        for s_ in A.steps:
+            normal_batches = sum(1 for i, k, kw in s_["items"] if k == "consult" and not kw["hft"] and kw["n"] > 0)
+            hft_consults = sum(1 for i, k, kw in s_["items"] if k == "consult" and kw["hft"])
+            if normal_batches and hft_consults < normal_batches:
+                raise Violation("C16.placement_continues_during_halt", f"step {s_['t']} (running at its begin: {s_['running']}): {normal_batches} batch(es) of normal agents "
+                                                                       f"but the high-frequency agent was consulted {hft_consults} time(s)")
     # matching really resumes: once a market runs again (and the session executes), every accepted order or cancel on it is
     # followed by a round -- orders that crossed during the halt do not stay crossed
     judged = check_round_follows(A, "C16")
